@@ -102,6 +102,7 @@ type Axiom struct {
 	Name string
 	E    *Expr
 	Src  string
+	When []string // include only in VCs that mention all of these function symbols
 }
 
 type GhostField struct {
@@ -812,7 +813,12 @@ func ParseSpecFile(path, defaultPkg string) (*SpecFile, error) {
 			if err != nil {
 				return nil, fail(err)
 			}
-			sf.Axioms = append(sf.Axioms, &Axiom{Name: strings.TrimSpace(rest[:i]), E: e, Src: strings.TrimSpace(rest[i+1:])})
+			ax := &Axiom{Name: strings.TrimSpace(rest[:i]), E: e, Src: strings.TrimSpace(rest[i+1:])}
+			if f := strings.Fields(ax.Name); len(f) >= 3 && f[1] == "when" {
+				ax.Name = f[0]
+				ax.When = f[2:]
+			}
+			sf.Axioms = append(sf.Axioms, ax)
 		case "ghost":
 			// ghost field (Type) name Sort
 			r := strings.TrimSpace(strings.TrimPrefix(rest, "field"))
